@@ -15,6 +15,17 @@ CHECKS = {
    note="Trusted: Coq kernel + vm_compute; gen_tables.py (translator by exhaustive evaluation); pyarrow type predicates; "
         "Model/Validate.v is hand-written (control flow of validate, _process_features, set_data_type) and tied by exhaustive correspondence.",
    design="4/C17"),
+ "C18": dict(
+   technique="Coq proof (refinement of the documented link rule, order-independence of validation, prefix rule for all tuples) + model/implementation correspondence by vm_compute",
+   text="Theorems quantify over every class hierarchy, link list and class pair: outside the stated asymmetric domain the links found are "
+        "exactly those of the documented rule (exact first, else balanced ancestors at minimal distance, same concrete class for self "
+        "links); never a sibling mismatch; closest wins; validation verdict = existence of a contradicting pair and is invariant under "
+        "permutation of the set; is_a_part_of_ is the prefix relation for tuples of any length. The documented rule is refuted on the "
+        "faithful model by a kernel-checked witness (known finding). The model is tied to the code by running _find_matching_links, "
+        "validate_links, Index/supports_index and prepare() on generated class forests and evaluating the model on the same inputs.",
+   note="Trusted: Coq kernel + vm_compute; hand-written Model/LinkSel.v; Python issubclass/__mro__ on single-inheritance forests; unique class names. "
+        "Index tuples are exhaustive up to length 3 over 3 letters, the rest is PRNG-sampled (VERIF_SEED).",
+   design="4/C18"),
 }
 
 NOT_YET = "check not built yet in this session (see DESIGN.md section 8 staging); not claimed"
